@@ -89,6 +89,67 @@ def split_functions(source):
     return out
 
 
+def c_to_py(text):
+    """C expression text (as sympy's ccode prints it) -> python expression text: `c ? a : b` becomes `(a if c else b)`, && / || / ! become
+    and / or / not.  Purely syntactic; operator precedence of everything else coincides for the printed subset."""
+    text = " ".join(text.split())
+
+    def split_top(sx, ch):
+        depth = 0
+        for i, c in enumerate(sx):
+            if c == "(":
+                depth += 1
+            elif c == ")":
+                depth -= 1
+            elif c == ch and depth == 0:
+                return i
+        return -1
+
+    def conv(sx):
+        q = split_top(sx, "?")
+        if q >= 0:
+            # matching ':' at depth 0 (nested ternaries in the else-branch are right-associative; in the then-branch ccode parenthesises)
+            depth, nest, j = 0, 0, -1
+            for i in range(q + 1, len(sx)):
+                c = sx[i]
+                if c == "(":
+                    depth += 1
+                elif c == ")":
+                    depth -= 1
+                elif depth == 0 and c == "?":
+                    nest += 1
+                elif depth == 0 and c == ":":
+                    if nest == 0:
+                        j = i
+                        break
+                    nest -= 1
+            if j < 0:
+                raise TextError("ternary without ':'")
+            return f"(({conv(sx[q + 1:j])}) if ({conv(sx[:q])}) else ({conv(sx[j + 1:])}))"
+        out, i = [], 0
+        while i < len(sx):
+            if sx[i] == "(":
+                depth, j = 1, i + 1
+                while j < len(sx) and depth:
+                    depth += sx[j] == "("
+                    depth -= sx[j] == ")"
+                    j += 1
+                out.append("(" + conv(sx[i + 1 : j - 1]) + ")")
+                i = j
+            else:
+                out.append(sx[i])
+                i += 1
+        r = "".join(out)
+        r = r.replace("&&", " and ").replace("||", " or ")
+        return re.sub(r"!(?!=)", " not ", r)
+
+    return conv(text)
+
+
+def parse_c(text):
+    return ast.parse(c_to_py(text.strip()).strip(), mode="eval").body
+
+
 class Evaluator:
     numeric = False  # numeric=True: leaves are python floats, functions are math.* (native confirmation of a symbolic disagreement)
 
@@ -117,12 +178,36 @@ class Evaluator:
                 self.problems.append(f"{node.id} used before it is assigned")
                 raise TextError(f"use of {node.id} before assignment")
             return self.env[node.id]
+        if isinstance(node, ast.IfExp):
+            c = self.ev(node.test)
+            if self.numeric:
+                return self.ev(node.body) if c else self.ev(node.orelse)
+            return z3.If(c, self.ev(node.body), self.ev(node.orelse))
+        if isinstance(node, ast.BoolOp):
+            vs = [self.ev(v) for v in node.values]
+            if self.numeric:
+                return all(vs) if isinstance(node.op, ast.And) else any(vs)
+            return z3.And(*vs) if isinstance(node.op, ast.And) else z3.Or(*vs)
+        if isinstance(node, ast.UnaryOp) and isinstance(node.op, ast.Not):
+            v = self.ev(node.operand)
+            return (not v) if self.numeric else z3.Not(v)
+        if isinstance(node, ast.Compare) and len(node.ops) == 1:
+            a, b = self.ev(node.left), self.ev(node.comparators[0])
+            op = node.ops[0]
+            for kind, fn in ((ast.Eq, lambda: a == b), (ast.NotEq, lambda: a != b), (ast.Lt, lambda: a < b), (ast.LtE, lambda: a <= b), (ast.Gt, lambda: a > b), (ast.GtE, lambda: a >= b)):
+                if isinstance(op, kind):
+                    return fn()
+            raise TextError(f"comparison {type(op).__name__}")
         if isinstance(node, ast.UnaryOp) and isinstance(node.op, ast.USub):
             return -self.ev(node.operand)
         if isinstance(node, ast.UnaryOp) and isinstance(node.op, ast.UAdd):
             return self.ev(node.operand)
         if isinstance(node, ast.BinOp):
             a, b = self.ev(node.left), self.ev(node.right)
+            if not self.numeric:
+                # C: a comparison used arithmetically is 0 / 1 (ccode prints sign(x) as ((x) > 0) - ((x) < 0))
+                a = z3.If(a, z3.RealVal(1), z3.RealVal(0)) if z3.is_bool(a) else a
+                b = z3.If(b, z3.RealVal(1), z3.RealVal(0)) if z3.is_bool(b) else b
             if isinstance(node.op, ast.Add):
                 return a + b
             if isinstance(node.op, ast.Sub):
@@ -160,8 +245,10 @@ class Evaluator:
                             r = uf("sqrt")(args[0])
                             return 1 / r if neg else r
                     return uf("pow", 2)(args[0], args[1])
+                if f.id == "fabs" and len(args) == 1:
+                    return z3.If(args[0] >= 0, args[0], -args[0])  # |x| by definition (the expected side defines Abs the same way)
                 if f.id in FUNCS1 and len(args) == 1:
-                    return uf({"fabs": "Abs"}.get(f.id, f.id))(args[0])
+                    return uf(f.id)(args[0])
                 raise TextError(f"call of {f.id}")
             if isinstance(f, ast.Attribute) and not node.args:
                 base = ast.unparse(f.value)
@@ -187,12 +274,12 @@ class Evaluator:
                 name = m.group(1)
                 if name in self.env:
                     self.problems.append(f"{name} assigned more than once")
-                self.env[name] = self.ev(ast.parse(m.group(2).strip(), mode="eval").body)
+                self.env[name] = self.ev(parse_c(m.group(2)))
                 self.assigned.append(name)
                 continue
             m = re.fullmatch(r"(\w+)\((\d+),\s*(\d+)\)\s*=\s*(.+)", st, re.S)
             if m:
-                cells[(m.group(1), int(m.group(2)), int(m.group(3)))] = self.ev(ast.parse(m.group(4).strip(), mode="eval").body)
+                cells[(m.group(1), int(m.group(2)), int(m.group(3)))] = self.ev(parse_c(m.group(4)))
                 continue
             if re.fullmatch(r"[\w:<>, ]+\s+\w+", st):
                 continue  # declaration `T jacobian`
